@@ -161,8 +161,9 @@ def popTries (sp : Span) : Nat → C Unit
 
 def bumpVars : C Unit := updCurr fun f => { f with cntVars := f.cntVars + 1 }
 
-partial def zeroPVal (t : Ty) : Option PVal :=
-  match t with
+mutual
+/-- `value.ZeroValue` as a push operand (the default `compileSingletonInit` pushes). -/
+def zeroPVal : Ty → Option PVal
   | .null => some .null
   | .int => some (.int 0)
   | .float => some (.float 0)
@@ -172,10 +173,15 @@ partial def zeroPVal (t : Ty) : Option PVal :=
   | .list _ => some .emptyList
   | .anyobj => some .emptyAnyObj
   | .opt _ => some .noneOpt
-  | .obj fs => do
-    let vs ← fs.mapM fun (k, ft) => do pure (k, ← zeroPVal ft)
-    pure (.obj vs)
+  | .obj fs => (zeroPFields fs).map .obj
   | _ => none
+def zeroPFields : List (String × Ty) → Option (List (String × PVal))
+  | [] => some []
+  | (k, ft) :: rest => do
+    let v ← zeroPVal ft
+    let vs ← zeroPFields rest
+    pure ((k, v) :: vs)
+end
 
 def arith (op : InfixOp) (sp : Span) : C Unit :=
   match op with
